@@ -783,6 +783,21 @@ def loseInstance (fuel : Nat) (i : Nat) : M (List Nat) := do
   let f1 ← starterInvalidation fuel [i] failed
   stopperInvalidation fuel [i] f1
 
+/-- the same when several instances are found FAILED by the same evaluation (`invalidate_failed` walks the instances in order
+    and ACCUMULATES the failed processes; the commanders are told once, with every lost instance) -/
+def loseInstances (fuel : Nat) (is : List Nat) : M (List Nat) := do
+  let mut failed : List Nat := []
+  for i in is do
+    let w ← get
+    let ps := List.range w.procs.length
+    let hit := ps.filter (fun p => let x := w.procs.getD p {}; (getInfo x.infos i).isSome && runningOn x i)
+    let procs' := ps.map (fun p => let x := w.procs.getD p {}
+      if hit.contains p then (match invalidateIdentifier x i w.now with | .ok y => y | .err _ => x) else x)
+    failed := failed ++ (hit.filter (fun p => (procs'.getD p {}).running.isEmpty && !failed.contains p))
+    set { w with procs := procs', instRunning := w.instRunning.set i false, instChecked := w.instChecked.set i false }
+  let f1 ← starterInvalidation fuel is failed
+  stopperInvalidation fuel is f1
+
 /-- `Context.on_process_disability_event` -/
 def disableProcess (i p : Nat) (dis : Bool) : M Unit := do
   let w ← get
